@@ -108,6 +108,32 @@ theorem es_action_valid (c : EsCfg) (e : Ev) (a : Bytes)
 example : actionLine true ⟨lit "index", lit "i-%", [], [lit "idx"]⟩ ⟨0, [], [lit "a\"}}\n{\"x"]⟩
     = some (lit "{\"index\":{\"_index\":\"i-a\\\"}}\\u000a{\\\"x\"}}") := by decide
 
+/-- **elasticsearch routing**: the index name a receiver decodes out of the action line is the
+    event's OWN index — `index_format` with its field values put in as they are — whatever bytes
+    those values hold: escaping loses nothing and borrows nothing from other events -/
+theorem es_index_roundtrip (c : EsCfg) (e : Ev) (a : Bytes)
+    (hf : ∀ b ∈ c.format, SafeByte b) (ht : ∀ b ∈ c.time, SafeByte b)
+    (h : actionLine true c e = some a) :
+    ∃ idx, specIndex c e = some idx ∧ actionIndex c.op a = some idx := by
+  unfold actionLine at h
+  cases hx : expandFormat true c e c.format 0 (headerPrefix c) with
+  | none => simp [hx] at h
+  | some res =>
+    obtain ⟨x, v, hres, hd, hv⟩ := expandFormat_dec c e ht c.format 0 (headerPrefix c) [] res hf hx
+    simp [hx] at h
+    refine ⟨v, by simpa [specIndex] using hv, ?_⟩
+    subst h; subst hres
+    unfold actionIndex
+    have : headerPrefix c ++ x ++ lit "\"}}" = (lit "{\"" ++ c.op ++ lit "\":{\"_index\":\"") ++ (x ++ (34 :: lit "}}")) := by
+      simp [headerPrefix, lit]
+    rw [this, stripPrefix_append]
+    simp only []
+    rw [hd]
+    simp [strDecode]
+
+example : actionIndex (lit "index") (lit "{\"index\":{\"_index\":\"i-a\\\"}}\\u000a{\\\"x\"}}") = some (lit "i-a\"}}\n{\"x")
+    ∧ specIndex ⟨lit "index", lit "i-%", [], [lit "idx"]⟩ ⟨0, [], [lit "a\"}}\n{\"x"]⟩ = some (lit "i-a\"}}\n{\"x") := by decide
+
 /-- **elasticsearch**: the bulk body unframes to (action line, document) pairs, one per
     deliverable event, in order -/
 theorem es_frames (c : EsCfg) (lim : Nat) (wd : WD) (batch : List Ev)
@@ -241,6 +267,23 @@ theorem kafka_values (grow : Nat → Nat → Nat) (c : KCfg) (lim : Nat) (batch 
   rw [forEach_eq_foldl]
   simp only [hinv.np, Bool.false_eq_true, if_false]
   rw [read_allGood _ c hinv.fr _ _ hinv.good]
+
+/-- **kafka routing**: every record goes to its OWN event's topic — the topic field's value when
+    `use_topic_field` is on and the value is not empty, the default topic otherwise — whatever
+    earlier events or earlier batches of the worker used -/
+theorem kafka_topics (grow : Nat → Nat → Nat) (c : KCfg) (lim : Nat) (batch : List Ev)
+    (hsize : (deliverable batch).length ≤ c.batchSize) :
+    (kafkaOut grow c lim batch).toOption.map (fun rs => rs.map (·.1))
+      = some ((deliverable batch).map (specTopic c)) := by
+  have htop : ∀ e, kafkaTopic c e = specTopic c e := by
+    intro e
+    unfold kafkaTopic specTopic
+    cases c.useTopicField <;> cases e.route <;> simp
+  rw [kafka_values grow c lim batch hsize]
+  simp [Except.toOption, htop]
+
+example : (kafkaOut growDouble ⟨4, lit "dflt", true⟩ 0 [⟨0, lit "{}", [lit "t1"]⟩, ⟨0, lit "{}", [[]]⟩, ⟨0, lit "{}", []⟩]).toOption.map
+    (fun rs => rs.map (·.1)) = some [lit "t1", lit "dflt", lit "dflt"] := by decide
 
 /-- the views of one batch never overlap: each record ends before the next one starts
     (same offsets even when a reallocation put them into different arrays) -/
